@@ -13,6 +13,12 @@ impl Message {
                                 b_created_at: Timestamp, b_processed_at: Timestamp, b_id: EventId) -> (r: Ordering)
         ensures r == display_cmp(a_created_at.secs, a_processed_at.secs, a_id.bytes@, b_created_at.secs, b_processed_at.secs, b_id.bytes@)
     { unimplemented!() }
+    // ASSUMED here, PROVED on the real code by the Kani unit cmp_keys (same statement).
+    #[verifier::external_body]
+    pub fn compare_processed_at_keys(a_processed_at: Timestamp, a_created_at: Timestamp, a_id: EventId,
+                                     b_processed_at: Timestamp, b_created_at: Timestamp, b_id: EventId) -> (r: Ordering)
+        ensures r == display_cmp(a_processed_at.secs, a_created_at.secs, a_id.bytes@, b_processed_at.secs, b_created_at.secs, b_id.bytes@)
+    { unimplemented!() }
 }
 
 pub open spec fn new_key_wins(g: Group, m: Message) -> bool {
